@@ -23,13 +23,56 @@ pub const FAMILIES: &[(&str, &str)] = &[
     ("label/goto early exit dropping a partially consumed list", "def find(l: List, k:cns i64): i64 { l.case { Nil => 0, Cons(x, xs) => if x == 5 { goto k(x) } else { find(xs, k) } } }\ndef go(i: i64, acc: i64): i64 { if i <= 0 { acc } else { go(i - 1, acc + (label k { find(build(10, Nil), k) })) } }\ndef main(n: i64): i64 { go(n, 0) }"),
 ];
 
+/// Composed loop bodies: object kind x use pattern x number of further live variables.  Every
+/// iteration allocates, uses (uniquely, shared, through a closure, not at all) and finally drops
+/// its objects, so live data is bounded; the extra parameters put block pointers into spill slots
+/// (more than 6 other variables on x86-64, more than 13 on AArch64).
+pub fn generated_families() -> Vec<(String, String)> {
+    let kinds: [(&str, &str, &str, fn(&str) -> String); 5] = [
+        ("list", "List", "build(5, Nil)", |o| format!("{o}.case {{ Nil => 0, Cons(x, xs) => x + sum(xs, 0) }}")),
+        ("4-field object", "Quad", "Q(i, acc, 3, 4)", |o| format!("{o}.case {{ Q(a, b, c, d) => (a + b) + (c + d) }}")),
+        ("7-field object", "Wide", "W(i, 2, 3, 4, build(2, Nil), 6, acc)", |o| format!("{o}.case {{ W(a, b, c, d, e, f, g) => (a + g) + sum(e, f) }}")),
+        ("tree", "Tree", "tree(2)", |o| format!("{o}.case {{ Leaf(v) => v, Node(l, k, r) => k + ((tsum(l)) + (tsum(r))) }}")),
+        ("closure", "Fun", "new { ap(x) => (x + i) + acc }", |o| format!("{o}.ap(i)")),
+    ];
+    let mut out = Vec::new();
+    for (kname, ty, ctor, m) in kinds {
+        for pattern in 0..6usize {
+            for extra in [0usize, 5, 8, 13] {
+                let ps: Vec<String> = (0..extra).map(|j| format!("p{j}")).collect();
+                let params: String = ps.iter().map(|p| format!(", {p}: i64")).collect();
+                let pass: String = ps.iter().map(|p| format!(", {p}")).collect();
+                let sum_ps = ps.iter().fold("acc".to_string(), |a, p| format!("({a}) + {p}"));
+                let init: String = (0..extra).map(|j| format!(", {}", j + 1)).collect();
+                let mo = m("o");
+                let (pname, body) = match pattern {
+                    0 => ("used once", mo.clone()),
+                    1 => ("used twice (first use while shared)", format!("({mo}) + ({mo})")),
+                    2 => ("used while shared, then dropped or used", format!("let s: i64 = {mo};\n    if i % 2 == 0 {{ s }} else {{ s + ({mo}) }}")),
+                    3 => ("used while shared, then passed to a function that ignores it", format!("let s: i64 = {mo};\n    ignore{ty}(o, s)")),
+                    4 => ("captured by a closure applied twice or dropped", format!("let f: Fun = new {{ ap(x) => x + ({mo}) }};\n    if i % 3 == 0 {{ 0 }} else {{ (f.ap(1)) + (f.ap(2)) }}")),
+                    _ => ("two objects alive", format!("let o2: {ty} = {ctor};\n    ({mo}) + ({})", m("o2"))),
+                };
+                let src = format!(
+                    "{PRELUDE}data Quad {{ Q(a: i64, b: i64, c: i64, d: i64) }}\ndef ignore{ty}(o: {ty}, s: i64): i64 {{ s }}\ndef go(i: i64, acc: i64{params}): i64 {{\n  if i <= 0 {{ {sum_ps} }} else {{\n    let o: {ty} = {ctor};\n    let v: i64 = {body};\n    go(i - 1, (acc + v) % 1000{pass})\n  }}\n}}\ndef main(n: i64): i64 {{ go(n, 0{init}) }}\n"
+                );
+                out.push((format!("{kname}, {pname}, {extra} further live variables"), src));
+            }
+        }
+    }
+    out
+}
+
 pub fn run(ctx: &Ctx, acc: &mut Acc, isas: &[Isa]) {
     let base: i64 = if ctx.quick() { 8 } else { 400 };
-    for (fi, (name, body)) in FAMILIES.iter().enumerate() {
+    let mut all: Vec<(String, String)> = FAMILIES.iter().map(|(n, b)| (n.to_string(), format!("{PRELUDE}{b}\n"))).collect();
+    all.extend(generated_families());
+    for (fi, (name, src)) in all.iter().enumerate() {
         if fi % ctx.nshards != ctx.shard {
             continue;
         }
-        let src = format!("{PRELUDE}{body}\n");
+        let name = &name.as_str();
+        let src = src.clone();
         let st = match pipeline::all_stages(&src) {
             Ok(s) => s,
             Err(e) => {
